@@ -34,7 +34,7 @@ func init() {
 	runners["C18"] = func(tier string) runner {
 		c := &c18{tier: tier, n: 9000}
 		if tier == "thorough" {
-			c.n = 400000
+			c.n = 2000000
 		}
 		c.st.Distinct = map[uint64]bool{}
 		c.st.Nontrivial = map[uint64]bool{}
